@@ -367,6 +367,43 @@ def _if_chain_end(s, i):
     return e + 1
 
 
+def if_init(s, st):
+    """C++17  if (T x = e; cond) {..} [else ..]   ->   { T x = e; if (cond) {..} [else ..] }"""
+    pos = 0
+    while True:
+        m = re.compile(r'\bif\s*\(').search(s, pos)
+        if not m:
+            return s
+        pe = match(s, m.end() - 1, '(', ')')
+        inner = s[m.end():pe]
+        # top-level ';' inside the parentheses?
+        d = 0
+        semi = -1
+        i = 0
+        while i < len(inner):
+            e = skip_literal(inner, i)
+            if e >= 0:
+                i = e + 1
+                continue
+            c = inner[i]
+            if c in '([{':
+                d += 1
+            elif c in ')]}':
+                d -= 1
+            elif c == ';' and d == 0:
+                semi = i
+                break
+            i += 1
+        if semi < 0:
+            pos = m.end()
+            continue
+        end = _if_chain_end(s, m.start())
+        new = '{ ' + inner[:semi].strip() + '; if (' + inner[semi + 1:].strip() + ')' + s[pe + 1:end] + ' }'
+        s = s[:m.start()] + new + s[end:]
+        bump(st, 'if-with-initialiser')
+        pos = m.start() + 2
+
+
 def try_catch(s, st):
     """try { S } catch (T1 const& e) { H1 } catch (...) { H2 }   ->  ghost-flag form (DESIGN §2.4).
     After every statement of S that contains a call:  if (g_exc) goto __catch_k;
